@@ -190,7 +190,7 @@ def run(shard, ctx):
             for step in range(rng.randint(1, 40)):
                 op = rng.randrange(12)
                 n = rng.choice(NAMES16)
-                o = rng.randint(2, 6)
+                o = rng.choice([0, 1, 2, 3, 4, 5, 6, 3, 4, 5])
                 if op == 0:
                     f = lambda: nc.add_note(n); m.add(n); hist.append(("add", n))
                 elif op == 1:
